@@ -514,6 +514,7 @@ type FuncContract struct {
 	Lets      []LetSpec // ghost lets evaluated at entry
 	CallAsserts map[string][]Clause // callee key suffix -> asserted preconditions at call sites
 	Havoc     []string
+	Witness   []SExpr // candidate witness expressions for existential clauses
 }
 
 type LetSpec struct {
@@ -566,7 +567,7 @@ var clauseKeywords = map[string]bool{
 	"requires": true, "ensures": true, "assigns": true, "loop": true, "inline": true,
 	"invariant": true, "guarded_by": true, "opaque": true, "trusted": true, "may_panic": true,
 	"wire": true, "noverify": true, "sort": true, "note": true, "let": true, "import": true,
-	"pure": true, "callassert": true, "havoc": true,
+	"pure": true, "callassert": true, "havoc": true, "witness": true,
 }
 
 // extractContractLines pulls the "//@" lines out of a Go source or .spec file
@@ -787,6 +788,17 @@ func (db *ContractDB) parseFile(pkgPath, file, src string) error {
 					return fail(err)
 				}
 				curF.Assigns = append(curF.Assigns, as)
+			}
+		case "witness":
+			if curF == nil {
+				return fail(fmt.Errorf("witness outside func"))
+			}
+			for _, item := range splitTopLevelCommas(rest) {
+				e, err := parseSpecExpr(strings.TrimSpace(item))
+				if err != nil {
+					return fail(err)
+				}
+				curF.Witness = append(curF.Witness, e)
 			}
 		case "havoc":
 			if curF != nil {
